@@ -7,7 +7,7 @@ import subprocess
 
 import vlib
 
-GOALS = ["A%02d" % i for i in range(1, 9)] + ["G%02d" % i for i in range(9, 34)]
+GOALS = ["A%02d" % i for i in range(1, 9)] + ["G%02d" % i for i in range(9, 38)]
 # slices: (name, constants overriding the base); every goal is tried in every applicable slice
 BASE = dict(NReq=3, NOrig=1, MaxDial=3, MaxTick=0, AsBuilt="{}", MaxIdles="{1}", IdleTimeouts="{0}",
             Protos="{TRUE, FALSE}", Faults="AllFaults", Spurious="FALSE", AllowDrop="FALSE")
@@ -25,6 +25,10 @@ SPECIAL = {
     "G32": dict(MaxTick=1, IdleTimeouts="{2}", Protos="{TRUE}", MaxIdles="{1}", Faults="NoFaults", MaxDial=2),
     "G33": dict(MaxTick=1, IdleTimeouts="{2}", Protos="{TRUE}", MaxIdles="{1}", Faults="NoFaults", MaxDial=2),
     "G30": dict(AllowDrop="TRUE", MaxDial=2),
+    "G34": dict(AllowDrop="TRUE", MaxDial=2, Protos="{TRUE}", Faults="NoFaults"),
+    "G35": dict(AllowDrop="TRUE", MaxDial=2),
+    "G36": dict(AllowDrop="TRUE", MaxDial=2, Protos="{FALSE}"),
+    "G37": dict(AllowDrop="TRUE", MaxDial=2),
     "G31": dict(AllowDrop="TRUE", MaxDial=2, Protos="{FALSE}"),
     "A02": dict(Protos="{FALSE}", Faults="NoFaults"),
     "A01": dict(Protos="{FALSE}", Faults="CloseOnly"),
@@ -90,7 +94,7 @@ def _one(pid, goal, sname, consts, outdir):
         st = nxt[1]
         cfgrec = st["cfg"]
         steps.append({"ev": st["ev"], "obs": {}})
-    beh = {"cfg": {"cap": cfgrec["cap"], "maxIdle": cfgrec["maxIdle"], "idleTimeout": cfgrec["it"]}, "steps": steps, "goal": f"{goal}/{sname}"}
+    beh = {"cfg": {"cap": cfgrec["cap"], "maxIdle": cfgrec["maxIdle"], "idleTimeout": cfgrec["it"], "noPool": cfgrec.get("nopool", False)}, "steps": steps, "goal": f"{goal}/{sname}"}
     return goal, sname, beh, "ok"
 
 
